@@ -42,6 +42,14 @@ fn strat(tier: Tier) -> impl Strategy<Value = Case> {
 
 fn check_one<CS: BbsCiphersuite>(rep: &Report, ck: &str, c: &Case) -> CheckResult {
     let cj = |step: Option<usize>| json!({"case": c, "step": step});
+    // half of the cases run after a warm-up history of unrelated legal calls on this thread
+    {
+        let hs: u64 = c.key.ikm.seed as u64 ^ (c.steps.len() as u64) << 3;
+        if hs % 2 == 1 {
+            crate::history::warmup(hs, 1 + (hs % 5) as usize);
+            rep.class("after-warm-up-history");
+        }
+    }
     let r = Ref::new(c.suite);
     let kp = keypair::<CS>(&c.key).map_err(|e| Fail { check: ck.into(), site: "keygen".into(), msg: format!("{:?}", e), case: cj(None) })?;
     let (sk, pk) = (kp.private_key(), kp.public_key());
